@@ -58,7 +58,7 @@ PATHS = [b"/", b"/a", b"/a/", b"/a.", b"/ab", b"/a/b", b"/q", b"/nohandler", b"/
 UNSAFE = [b"/a/./b", b"/./a", b"/a/../a", b"//a", b"/a./x", b"/./int"]
 QUERIES = [None, b"b", b"x=1", b"x=2"]
 METHODS = [b"GET", b"GET", b"GET", b"HEAD", b"POST", b"OPTIONS", b"PUT"]
-REPORT = [b"vary", b"?last-modified", b"x-h"]
+REPORT = [b"vary", b"x-h"]       # last-modified is the cache's own stamp: not a representation header, not pinned
 VVALS = [b"a", b"b", b"c"]
 SLACK = 450
 
